@@ -770,6 +770,10 @@ func C02(c *Ctx) {
 					if cl, isC := fa.Cond.(*ssa.Call); isC && fa.True && cl.Common().StaticCallee() != nil && cl.Common().StaticCallee().Name() == "IsVariable" {
 						under = true
 					}
+					// `!IsConstant(key)`, where IsConstant is the negation of IsVariable
+					if cl, isC := fa.Cond.(*ssa.Call); isC && !fa.True && negationOf(cl.Common().StaticCallee(), "IsVariable") {
+						under = true
+					}
 				}
 				if !under {
 					bad = "the message map is ranged outside the property-variable case at " + c.pos(in)
@@ -929,4 +933,29 @@ func C02(c *Ctx) {
 	if m.branchPrivacy("C02-R5") == 0 {
 		c.R.Break("C02-R5: no bind or writer call inside a loop over alternatives found")
 	}
+}
+
+// negationOf: f does nothing but return the negation of a call of the function named name on its own operands.
+func negationOf(f *ssa.Function, name string) bool {
+	if f == nil || len(f.Blocks) != 1 {
+		return false
+	}
+	ret, ok := f.Blocks[0].Instrs[len(f.Blocks[0].Instrs)-1].(*ssa.Return)
+	if !ok || len(ret.Results) != 1 {
+		return false
+	}
+	not, ok := ret.Results[0].(*ssa.UnOp)
+	if !ok || not.Op != token.NOT {
+		return false
+	}
+	cl, ok := not.X.(*ssa.Call)
+	if !ok || cl.Common().StaticCallee() == nil || cl.Common().StaticCallee().Name() != name {
+		return false
+	}
+	for _, a := range cl.Common().Args {
+		if _, isP := a.(*ssa.Parameter); !isP {
+			return false
+		}
+	}
+	return true
 }
